@@ -9,9 +9,13 @@ GRID_T = list(range(256))
 RULE_PAIRS = [['&', '>>'], ['|', '=='], ['<<<', '>>>'], ['+', '-'], ['^', '-'], ['&', '|'], ['<<', '>>'], ['*', '+']]
 
 
-def _simp(t):
+def _simp_shared(t):
+    return _simp(t, True)
+
+
+def _simp(t, shared=False):
     from miasmx.expression.expression_helper import expr_simp
-    e = EJ.from_json(t)
+    e = EJ.from_json_shared(t) if shared else EJ.from_json(t)
     st, r = irlib.guarded(expr_simp, e, 5)
     if st == 'ok':
         try:
@@ -136,8 +140,8 @@ def report(chk, recs, verdicts, rnd=None, minimize=True):
                             'verdict': mf})
 
 
-def run_space(chk, trees, rnd, nenv, grid, label):
-    outs = irlib.pmap(_simp, trees)
+def run_space(chk, trees, rnd, nenv, grid, label, shared=False):
+    outs = irlib.pmap(_simp_shared if shared else _simp, trees)
     recs, stats = build_records(trees, outs, rnd, nenv, grid, start_id=chk.cov['evaluations'])
     chk.cov['evaluations'] += len(trees)
     chk.cov['distinct_nontrivial'] += stats['changed'] + stats['timeout'] + stats['exc']
@@ -177,6 +181,9 @@ def run(tier, chk):
     run_space(chk, tb, rnd, 8 if quick else 16, [], 'b:multiwidth rich')
     rb = random_trees(rnd, 3000 if quick else 40000)
     run_space(chk, rb, rnd, 8 if quick else 16, [], 'c:random depth<=4')
+    # the same meaning must come out when identical sub-trees are one shared Python object (as user code and the lifter build them)
+    td = sharing_trees(rnd, 2500 if quick else 30000)
+    run_space(chk, td, rnd, 8 if quick else 16, [], 'd:trees with repeated sub-trees, built as DAGs', shared=True)
     chk.cov['rule'] = ('trees = reachable one-element stacks of IRGen.tla (typed stack machine) + seeded random deeper trees; '
                        'non-trivial = trees whose simplification differs structurally from the input (or did not terminate)')
     chk.assumptions += ['memory is a byte-addressed little-endian total function (IR.tla InitByte + overrides)',
@@ -225,6 +232,31 @@ def random_trees(rnd, n):
         cut = 8 if w > 8 else 1
         return {'k': 'compose', 'w': w, 'a': [gen(d - 1, 8), gen(d - 1, w - 8)], 's': [[0, 8], [8, w]]} if w - 8 in W else gen(d - 1, w)
     return [gen(rnd.choice([2, 3, 3, 4]), rnd.choice([8, 8, 16, 32, 32, 64, 1])) for _ in range(n)]
+
+
+def sharing_trees(rnd, n):
+    """trees in which a sub-tree occurs several times (slices of one source in adjacent compose slots, a slice reused
+    in a second operand, an operand repeated under another operator)"""
+    out = []
+    pool = random_trees(rnd, n)
+    for t in pool:
+        w = t['w']
+        c = rnd.random()
+        if w in (16, 32, 64) and c < 0.5:
+            h = w // 2
+            src = {'k': 'id', 'w': w, 'n': rnd.choice('xy') + str(w)} if rnd.random() < 0.6 else t
+            lo = {'k': 'slice', 'w': h, 'lo': 0, 'hi': h, 'a': [src]}
+            hi = {'k': 'slice', 'w': h, 'lo': h, 'hi': w, 'a': [src]}
+            whole = {'k': 'compose', 'w': w, 'a': [lo, hi], 's': [[0, h], [h, w]]}
+            other = {'k': 'compose', 'w': w, 'a': [hi, {'k': 'slice', 'w': h, 'lo': rnd.choice([0, 1, h // 2]), 'hi': 0, 'a': [{'k': 'id', 'w': w, 'n': 'z' + str(w)}]}],
+                     's': [[0, h], [h, w]]}
+            other['a'][1]['hi'] = other['a'][1]['lo'] + h
+            out.append({'k': 'op', 'w': w, 'o': rnd.choice(['^', '+', '|', '&']), 'u': 0, 'a': [whole, rnd.choice([other, hi and {'k': 'compose', 'w': w, 'a': [hi, lo], 's': [[0, h], [h, w]]}])]})
+        else:
+            o = rnd.choice(['^', '+', '|', '&', '-', '*'])
+            u = {'k': 'op', 'w': w, 'o': rnd.choice(['+', '&', '^']), 'u': 0, 'a': [t, {'k': 'id', 'w': w, 'n': 'y' + str(w)}]}
+            out.append({'k': 'op', 'w': w, 'o': o, 'u': 0, 'a': [t, u] if rnd.random() < 0.5 else [u, t]})
+    return out
 
 
 def negative_control(chk):
